@@ -98,6 +98,19 @@ def make_history(sp, rng, nops):
             b = ('read_crossline_number', (n if n is not None else rng.choice(xl),))
             base += [a, b]
             pairs.append((a, b))
+        # equal-sized neighbouring slabs / tiles (a volume read piecewise), asked of one object one after the other
+        nI_, nX_, nZ_ = sp.shape
+        for ax, n_ in ((0, nI_), (1, nX_), (2, nZ_)):
+            w = 4 * rng.choice([1, 2])
+            if n_ >= 2 * w:
+                lo = rng.randrange(0, n_ - 2 * w + 1) // 4 * 4
+                box = [[0, nI_], [0, nX_], [0, nZ_]]
+                a_, b_ = [list(x) for x in box], [list(x) for x in box]
+                a_[ax], b_[ax] = [lo, lo + w], [lo + w, lo + 2 * w]
+                pa = ('read_subvolume', tuple(v for r_ in a_ for v in r_))
+                pb = ('read_subvolume', tuple(v for r_ in b_ for v in r_))
+                base += [pa, pb]
+                pairs.append((pa, pb))
         for _ in range(3):
             base.append(('read_zslice_coord', (rng.choice(zs),)))
             lo = rng.randrange(len(zs))
@@ -206,9 +219,14 @@ def apply(obj_kind, obj, op):
         if obj_kind == 'X':
             a = op[1]
             return ('ok', reads.norm(obj.data[a[0]:a[1], a[2]:a[3], a[4]:a[5]:a[6]].to_numpy()))
-        return reads.run_op(obj, op)
+        return reads.run_op(obj, op, keep=RETAINED)
     except Exception as e:  # noqa
         return ('exc', type(e).__name__)
+
+
+# retention monitor: arrays returned by earlier reads of the history are kept (the objects themselves, as a caller would) and must still
+# hold what they held when they were returned, whatever is read afterwards
+RETAINED = []
 
 
 def run_case(case, ctx):
@@ -254,6 +272,8 @@ def run_case(case, ctx):
         return fresh_memo[key]
 
     bad, n, used = [], 0, set()
+    kept = 0
+    del RETAINED[:]
     trail = []
     for step, (o, op) in enumerate(hist):
         if o == 'ctl':
@@ -271,6 +291,14 @@ def run_case(case, ctx):
             continue
         obj = get(o)
         got = apply(o, obj, op)
+        del RETAINED[:-5]
+        for op_r, raw_r, n_r in RETAINED[:-1]:
+            kept += 1
+            if reads.norm(raw_r) != n_r:
+                bad.append({'sig': 'history:%s:earlier-result-changed-by-a-later-read' % op_r[0],
+                            'detail': 'the array returned by %s%s changed after step %d %s %s%s; preceding: %s' % (op_r[0], op_r[1:], step, o, op[0], op[1:], trail[-6:])})
+                del RETAINED[:]
+                break
         exp = fresh(o, op)
         n += 1
         used.add(o)
@@ -312,7 +340,8 @@ def run_case(case, ctx):
             pass
     for r in others:
         r.close()
-    return {'violations': bad, 'counters': {'ops_compared': n, 'cache_hits': hits, 'cache_misses': misses,
+    del RETAINED[:]
+    return {'violations': bad, 'counters': {'ops_compared': n, 'retained_results_rechecked': kept, 'cache_hits': hits, 'cache_misses': misses,
                                             'histories': 1, 'fresh_oracle_calls': len(fresh_memo)},
             'strata': sorted('obj:' + u for u in used) + ['cfg:preload' if any(c['preload'] for c in cfg.values()) else 'cfg:nopreload'] +
             ['cfg:ccs%s' % c['chunk_cache_size'] for c in cfg.values()] + ['kind:' + ('2d' if sp.is2d else 'irregular' if sp.ntr != sp.grid_traces else '3d')],
@@ -332,4 +361,6 @@ def finalize(tier, cases, results, counters, strata):
             reasons.append('required stratum not hit: ' + s)
     if counters.get('cache_hits', 0) == 0:
         reasons.append('no cache hit observed: warm paths not exercised')
+    if counters.get('retained_results_rechecked', 0) == 0:
+        reasons.append('retention monitor re-checked no earlier result')
     return {}, reasons
